@@ -2717,6 +2717,12 @@ pub fn check(
             experimental,
         );
 
+        #[cfg(fuellabs_sway_verif)]
+        if let Some(b) = retrigger_compilation.as_ref() {
+            sway_types::verif_hooks::point("abort.check_pkg", &|| {
+                b.load(std::sync::atomic::Ordering::SeqCst).to_string()
+            });
+        }
         if retrigger_compilation
             .as_ref()
             .is_some_and(|b| b.load(std::sync::atomic::Ordering::SeqCst))
